@@ -4,7 +4,7 @@ TIER=${1:-quick}; shift
 IDS=${@:-C01 C02 C03 C04 C05 C06 C07 C08 C09 C10 C11 C12 C13 C14 C15 C16 C17 C18 C19 C20}
 for id in $IDS; do
   s=$(date +%s)
-  out=$(timeout ${RUN_TIMEOUT:-3600} /verif/check $id --tier $TIER 2>&1); rc=$?
+  out=$(timeout ${RUN_TIMEOUT:-3600} "$(dirname "$0")/../check" $id --tier $TIER 2>&1); rc=$?
   e=$(date +%s)
   echo "$id rc=$rc $((e-s))s | $(echo "$out" | grep -v WARNING | grep "$id $TIER:" | cut -c1-200)"
   echo "$out" | grep "VIOLATION\|HARNESS-ERROR\|INCONCLUSIVE\|BOUND-HIT" | head -5 | cut -c1-250
